@@ -150,5 +150,11 @@ def tsan_keys(stderr, repo=None):
         else:
             m2 = re.search(r"#0 (\w+) ", rep)
             fn = m2.group(1) if m2 else "?"
+        # only races inside the library count; the driver's own event buffer is read by its watchdog handler
+        # while workers still run, which TSan reports too
+        if m and "/src/liblzma/" not in m.group(2) and "/src/common/" not in m.group(2):
+            continue
+        if not m and "/src/liblzma/" not in rep:
+            continue
         keys.append(("tsan:%s:%s:%s" % (kind.replace(" ", "_"), fn, var), "WARNING: ThreadSanitizer:" + rep[:2500]))
     return keys
